@@ -158,6 +158,26 @@ def conditioning(c, gname, fixed, limit_orders=None):
         c.eq('positional_conditioning', _eval(c, R, free, vals), spec)
 
 
+def second_reduction(c, order):
+    """history of two reductions: a joint reduced to a single distribution (which carries the log-density of the fixed variables as a constant) is used as a
+    FACTOR of a second joint with further, unrelated variables, and that joint is reduced again (in either order of the fixings): the result still accounts for
+    every factor of both joints"""
+    mk = lambda nm, dim, a, b: (UFDist2 if nm in ('a', 'b') else UFDist)(a, b, ctx=c, tag='l_' + nm, geometry=dim, name=nm)
+    ca = {k: c.real(k) for k in ('d_a', 'd_b', 'x_b', 's_a', 's_b', 'y_b')}
+    d = mk('d', 1, ca['d_a'], ca['d_b']); x = mk('x', 2, _mk_callable(['d']), ca['x_b'])
+    dv = c.vec('dv', 1); xv = c.vec('xv', 2); sv = c.vec('sv', 1); yv = c.vec('yv', 2)
+    px = JointDistribution(d, x)(d=dv)                                   # first reduction: a distribution in x carrying l_d(dv)
+    first = c.uf('l_d', ca['d_a'], ca['d_b'], *list(dv)) + c.uf('l_x', *list(2 * dv + 1), ca['x_b'], *list(xv))
+    c.eq('first_reduction_accounts_for_the_fixed_variable', px.logd(xv), first)
+    sdist = mk('s', 1, ca['s_a'], ca['s_b']); y = mk('y', 2, _mk_callable(['s']), ca['y_b'])
+    J2 = JointDistribution(px, sdist, y)
+    total = first + c.uf('l_s', ca['s_a'], ca['s_b'], *list(sv)) + c.uf('l_y', *list(2 * sv + 1), ca['y_b'], *list(yv))
+    c.eq('second_joint_is_the_sum_of_all_factors', J2.logd(x=xv, s=sv, y=yv), total)
+    red = J2(s=sv)(y=yv) if order == 's_then_y' else (J2(y=yv)(s=sv) if order == 'y_then_s' else J2(s=sv, y=yv))
+    c.eq('second_reduction_still_accounts_for_every_factor', red.logd(xv), total)
+    c.eq('second_reduction_by_keyword', red.logd(x=xv), total)
+
+
 def stacked(c, gname):
     facs, consts = build(c, gname)
     vals = {nm: c.vec(f'v_{nm}', dim) for (nm, dim, _, _) in GRAPHS[gname]}
@@ -287,6 +307,8 @@ def jobs(tier):
                 lim = None if (len(fixed) <= 2 or not q) else 4
                 J.append(Job(f'{g}:fixed={"+".join(fixed)}', lambda c, g=g, f=fixed, lim=lim: conditioning(c, g, list(f), lim), 'Pbox', FL, timeout=600))
         J.append(Job(f'{g}:stacked_view', lambda c, g=g: stacked(c, g), 'Pbox', [f'{DD}._joint_distribution:_StackedJointDistribution.logd']))
+    for order in ('s_then_y', 'y_then_s', 'together'):
+        J.append(Job(f'history:reduced_density_reused_as_factor_of_a_second_joint:{order}', lambda c, o=order: second_reduction(c, o), 'Pbox', FL, timeout=600))
     J.append(Job('refusals:hier3', refusals, 'Pbox', FL))
     subsets = [tuple(x for x, keep in zip(NAMES3, bits) if keep) for bits in itertools.product((0, 1), repeat=3)]
     for sub in subsets:
